@@ -1,6 +1,7 @@
 package vc
 
 import (
+	"sort"
 	"fmt"
 	"go/ast"
 	"go/token"
@@ -83,6 +84,7 @@ func (x *Exec) evalCall(call *ast.CallExpr, env *Env) []Term {
 		}
 	}
 	args := x.evalArgs(call, sig, env)
+	x.callsiteClauses(fn, key, call, args, env)
 
 	fi := x.P.ByObj[fn]
 	var fc *FuncContract
@@ -958,12 +960,37 @@ func (x *Exec) abstractCall(key string, fn *types.Func, sig *types.Signature, ca
 		}
 	}
 	if inMod {
+		// pointers that escaped into an earlier abstract callee may be written by this one too
+		if x.cx != nil {
+			var keys []string
+			for k := range x.cx.escaped {
+				keys = append(keys, k)
+			}
+			sort.Strings(keys)
+			for _, k := range keys {
+				e := x.cx.escaped[k]
+				x.writeBackArg(e, x.fresh("hv", x.cx.info.TypeOf(e)), env)
+			}
+		}
 		for i, a := range call.Args {
 			if i >= sig.Params().Len() {
 				break
 			}
-			if _, isPtr := sig.Params().At(i).Type().Underlying().(*types.Pointer); isPtr {
+			_, prmPtr := sig.Params().At(i).Type().Underlying().(*types.Pointer)
+			_, prmIface := sig.Params().At(i).Type().Underlying().(*types.Interface)
+			_, argPtr := x.cx.info.TypeOf(a).Underlying().(*types.Pointer)
+			if prmPtr || (prmIface && argPtr) {
+				if argPtr && isLibPointer(x.cx.info.TypeOf(a)) {
+					continue
+				}
 				x.writeBackArg(a, x.fresh("hv", x.cx.info.TypeOf(a)), env)
+				if prmIface && isAddressable(a) && x.cx != nil {
+					// stored behind an interface by the callee: treat as escaped from here on
+					if x.cx.escaped == nil {
+						x.cx.escaped = map[string]ast.Expr{}
+					}
+					x.cx.escaped[types.ExprString(a)] = a
+				}
 			}
 		}
 	}
@@ -972,6 +999,19 @@ func (x *Exec) abstractCall(key string, fn *types.Func, sig *types.Signature, ca
 		out = append(out, x.fresh(fmt.Sprintf("%s_r%d", fn.Name(), i), sig.Results().At(i).Type()))
 	}
 	return out
+}
+
+// isLibPointer: pointer to a type declared outside the module (opaque library struct)
+func isLibPointer(t types.Type) bool {
+	p, ok := t.Underlying().(*types.Pointer)
+	if !ok {
+		return false
+	}
+	n, ok := p.Elem().(*types.Named)
+	if !ok || n.Obj().Pkg() == nil {
+		return false
+	}
+	return !strings.HasPrefix(n.Obj().Pkg().Path(), "github.com/tsawler/tabula")
 }
 
 func isAddressable(e ast.Expr) bool {
@@ -995,4 +1035,24 @@ func (x *Exec) freshOfTypeName(hint, tname, pkg string) Term {
 	}
 	v := x.W.Fresh(hint, t.sort)
 	return v
+}
+
+// callsiteClauses: in full-function verification, `callsite callee(params) requires e` is asserted at every call
+// of the named callee with the parameters bound to the actual arguments (locals of the caller are in scope).
+func (x *Exec) callsiteClauses(fn *types.Func, key string, call *ast.CallExpr, args []Term, env *Env) {
+	if x.cx == nil || x.cx.fc == nil || x.quiet > 0 || x.termMode || x.cx.fc.Flags["callsites"] {
+		return
+	}
+	for i, cs := range x.cx.fc.Callsite {
+		if cs.Callee == "make" || (cs.Callee != key && cs.Callee != fn.Name()) {
+			continue
+		}
+		sc := x.scopeAt(env, call.Pos())
+		for j, p := range cs.Params {
+			if j < len(args) {
+				sc.locals[p] = args[j]
+			}
+		}
+		x.assert(env, "callsite:"+fn.Name()+"/"+clauseName(cs.Clause, i), "", sc.EvalBool(cs.Clause.Expr))
+	}
 }
